@@ -153,57 +153,85 @@ func c10g(c *Ctx) {
 			fld := n.Obj().Name() + "." + fieldName(fa.X.Type(), fa.Field)
 			nLists++
 			k[fld]++
-			okV := emptyListValue(st.Val) || localSlice(st.Val, map[ssa.Value]bool{})
-			if call, isCall := st.Val.(*ssa.Call); isCall && !okV && calleeName(call) == "builtin:append" {
-				// the field itself, extended
-				base := call.Call.Args[0]
-				for {
-					inner, isApp := base.(*ssa.Call)
-					if !isApp || calleeName(inner) != "builtin:append" {
-						break
-					}
-					base = inner.Call.Args[0]
-				}
-				if ld, isLd := base.(*ssa.UnOp); isLd {
-					if fa0, isFA := ld.X.(*ssa.FieldAddr); isFA && fa0.Field == fa.Field && (fa0.X == fa.X || c.term(fn, fa0.X) == c.term(fn, fa.X)) {
-						okV = true
-					}
-				}
-			}
-			if !okV {
-				var leaves []ssa.Value
-				phiLeaves(st.Val, map[ssa.Value]bool{}, &leaves)
-				okV = len(leaves) > 0
-				for _, lf := range leaves {
-					var call *ssa.Call
-					switch x := lf.(type) {
-					case *ssa.Extract:
-						if x.Index == 0 {
-							call, _ = x.Tuple.(*ssa.Call)
-						}
-					case *ssa.Call:
-						call = x
-					}
-					var g *ssa.Function
-					if call != nil {
-						g = callee(call)
-					}
-					// the list a hoisting record carries (C06.a: it is the list that was parsed)
-					if ld, isLd := lf.(*ssa.UnOp); isLd {
-						if _, t, _, okF := fieldAddrOf(ld.X); okF && (typeIs(t, "parser", "impMovement") || typeIs(t, "parser", "impText")) {
-							continue
-						}
-					}
-					if call == nil || g == nil || !c.W.InRepo(g) || c.W.PkgShort(g) != "parser" || c.T(fn).purity(g) >= purReadOnly {
-						if !emptyListValue(lf) {
-							okV = false
-						}
-					}
-				}
-			}
+			okV := c10gListOK(c, fn, fa, st.Val, 0)
 			c.Check(okV, fmt.Sprintf("node-lists-only-grow/%s/%s#%d", fn.Name(), fld, k[fld]), c.W.Pos(st.Pos()), fld+" is set to the empty list, to itself extended, to a list gathered here or to what a parser returned", fn.Name()+" sets "+fld+" to "+pretty(c.term(fn, st.Val))+": a node's list is replaced by a reworked one, so entries that were written can be missing, moved or doubled")
 		})
 	}
 	c.Check(nLists >= 15, "node-lists-only-grow/census", "-", fmt.Sprintf("%d stores into list fields of nodes", nLists), fmt.Sprintf("only %d stores into list fields of nodes found", nLists))
 	c.Check(nOwn >= 40, "written-by-its-maker/census", "-", fmt.Sprintf("%d stores into nodes by the function that makes them, %d reviewed finishing touches", nOwn, len(foreign)), fmt.Sprintf("only %d stores into syntax tree nodes found", nOwn))
+}
+
+// c10gListOK: the value is something a node's list may be set to — the empty list, the field
+// itself extended, a list gathered in a local of the function, what a token-consuming parser
+// returned, the list of a hoisting record; or a parameter, when every caller hands in such a value.
+func c10gListOK(c *Ctx, fn *ssa.Function, fa *ssa.FieldAddr, val ssa.Value, depth int) bool {
+	okV := emptyListValue(val) || localSlice(val, map[ssa.Value]bool{})
+	if call, isCall := val.(*ssa.Call); isCall && !okV && calleeName(call) == "builtin:append" {
+		// the field itself, extended
+		base := call.Call.Args[0]
+		for {
+			inner, isApp := base.(*ssa.Call)
+			if !isApp || calleeName(inner) != "builtin:append" {
+				break
+			}
+			base = inner.Call.Args[0]
+		}
+		if ld, isLd := base.(*ssa.UnOp); isLd {
+			if fa0, isFA := ld.X.(*ssa.FieldAddr); isFA && fa != nil && fa0.Field == fa.Field && (fa0.X == fa.X || c.term(fn, fa0.X) == c.term(fn, fa.X)) {
+				okV = true
+			}
+		}
+	}
+	if !okV {
+		var leaves []ssa.Value
+		phiLeaves(val, map[ssa.Value]bool{}, &leaves)
+		okV = len(leaves) > 0
+		for _, lf := range leaves {
+			var call *ssa.Call
+			switch x := lf.(type) {
+			case *ssa.Extract:
+				if x.Index == 0 {
+					call, _ = x.Tuple.(*ssa.Call)
+				}
+			case *ssa.Call:
+				call = x
+			}
+			var g *ssa.Function
+			if call != nil {
+				g = callee(call)
+			}
+			// the list a hoisting record carries (C06.a: it is the list that was parsed)
+			if ld, isLd := lf.(*ssa.UnOp); isLd {
+				if _, t, _, okF := fieldAddrOf(ld.X); okF && (typeIs(t, "parser", "impMovement") || typeIs(t, "parser", "impText")) {
+					continue
+				}
+			}
+			if call == nil || g == nil || !c.W.InRepo(g) || c.W.PkgShort(g) != "parser" || c.T(fn).purity(g) >= purReadOnly {
+				if !emptyListValue(lf) {
+					okV = false
+				}
+			}
+		}
+	}
+	if !okV && depth < 2 {
+		if par, isPar := val.(*ssa.Parameter); isPar {
+			idx := -1
+			for k, p := range fn.Params {
+				if p == par {
+					idx = k
+				}
+			}
+			calls := c.W.callsTo(fn)
+			okV = idx >= 0 && len(calls) > 0
+			for _, ci := range calls {
+				if isTestFunc(c.W, ci.Parent()) {
+					continue
+				}
+				if idx >= len(ci.Common().Args) || !c10gListOK(c, ci.Parent(), nil, ci.Common().Args[idx], depth+1) {
+					okV = false
+				}
+			}
+		}
+	}
+	return okV
 }
